@@ -129,6 +129,7 @@ Definition pc_ok (s : state) (p : pcT) : Prop :=
   | PopRead h g n => g <= gen s /\ h <> tail c /\ (g = gen s -> head s = h /\ nxt s h = n)
   | PushLoaded b h g => g <= gen s
   | PushWritten b h g => g <= gen s /\ nxt s b = h
+  | PopBump cur => cur + bsize c <= cap c
   | _ => True
   end.
 
